@@ -74,23 +74,38 @@ class SymNd(real_np.ndarray):
                 return self.copy()
         return super().astype(dt, *a, **k)
 
-    # reductions as methods
+    # reductions as methods (plain dtypes: real numpy on a base-class view)
+    def _plain(self):
+        return self.view(real_np.ndarray)
+
     def any(self, axis=None, keepdims=False, **k):
+        if self.dtype != object:
+            return self._plain().any(axis=axis, keepdims=keepdims, **k)
         return any_(self, axis=axis, keepdims=keepdims)
 
     def all(self, axis=None, keepdims=False, **k):
+        if self.dtype != object:
+            return self._plain().all(axis=axis, keepdims=keepdims, **k)
         return all_(self, axis=axis, keepdims=keepdims)
 
     def sum(self, axis=None, keepdims=False, **k):
+        if self.dtype != object:
+            return self._plain().sum(axis=axis, keepdims=keepdims, **k)
         return sum_(self, axis=axis, keepdims=keepdims)
 
     def mean(self, axis=None, keepdims=False, **k):
+        if self.dtype != object:
+            return self._plain().mean(axis=axis, keepdims=keepdims, **k)
         return mean_(self, axis=axis, keepdims=keepdims)
 
     def max(self, axis=None, keepdims=False, **k):
+        if self.dtype != object:
+            return self._plain().max(axis=axis, keepdims=keepdims, **k)
         return _reduce(self, axis, _ext(True, False), keepdims)
 
     def min(self, axis=None, keepdims=False, **k):
+        if self.dtype != object:
+            return self._plain().min(axis=axis, keepdims=keepdims, **k)
         return _reduce(self, axis, _ext(False, False), keepdims)
 
     def tolist(self):
@@ -588,7 +603,17 @@ def reshape(a, shape, **k):
 
 def percentile(a, q, axis=None, **k):
     if is_obj(a):
-        raise EngineGap("percentile on symbolic array")
+        OVERRIDES_USED.add("percentile")
+        xs = [XF.of(x) for x in real_np.asarray(a).reshape(-1)]
+        if axis is not None or len(xs) > 6 or not xs:
+            raise EngineGap("percentile on symbolic array (axis / more than 6 values)")
+        order = _sort_list(xs)  # forks on the order; numpy's default 'linear' interpolation between order statistics
+        pos = Fraction(len(order) - 1) * Fraction(q) / 100
+        lo = int(pos)
+        fr = pos - lo
+        if fr == 0:
+            return order[lo]
+        return xadd(order[lo], xmul(XF(fr), xf.xsub(order[lo + 1], order[lo])))
     return real_np.percentile(a, q, axis=axis, **k)
 
 
